@@ -28,6 +28,7 @@ type Job struct {
 	LoopCap  int
 	MaxPaths int
 	QTimeout int      // ms
+	Only     []string // assertion-id prefixes that belong to this property (others are judged by their own property's check)
 	Reach    []string // reachability witnesses that must be hit on some path
 	NoReplay bool     // native replay impossible (engine-only observation); reason in Note
 	Note     string
@@ -159,8 +160,10 @@ type jobReport struct {
 	Params   map[string]int64  `json:"params,omitempty"`
 	Result   *interp.RunResult `json:"result"`
 	Replayed int               `json:"replayed"`
+	OutOfScope int             `json:"out_of_scope_failures"`
 	Agreed   int               `json:"agreed"`
 	Note     string            `json:"note,omitempty"`
+	scope    []string
 }
 
 func cmdCheck(args []string) int {
@@ -241,7 +244,7 @@ func cmdCheck(args []string) int {
 		for k, v := range j.Params {
 			params[k] = v
 		}
-		cfg := interp.Config{Workers: 16, Sched: j.Sched, LoopCap: j.LoopCap, MaxPaths: j.MaxPaths, QueryTimeoutMS: j.QTimeout, Params: params, KeepScripts: 0}
+		cfg := interp.Config{Workers: 8, Sched: j.Sched, LoopCap: j.LoopCap, MaxPaths: j.MaxPaths, QueryTimeoutMS: j.QTimeout, Params: params, KeepScripts: 0}
 		if tier == "thorough" {
 			cfg.KeepScripts = 40
 			if cfg.QueryTimeoutMS == 0 {
@@ -249,7 +252,7 @@ func cmdCheck(args []string) int {
 			}
 		}
 		res := interp.Explore(l.prog, l.pkgs[j.Pkg], j.Func, cfg)
-		rep := jobReport{Job: name, Harness: res.Harness, Bounds: j.Bounds, Params: j.Params, Result: res, Note: j.Note}
+		rep := jobReport{Job: name, Harness: res.Harness, Bounds: j.Bounds, Params: j.Params, Result: res, Note: j.Note, scope: j.Only}
 		fmt.Printf("[%s] %s: paths=%d queries=%d (unknown %d) solver=%.1fs wall=%.1fs proved=%d failures=%d\n", id, name, res.Paths, res.Queries, res.QUnknown, res.SolverSeconds, res.WallSeconds, sumMap(res.AssertsProved), len(res.Failures))
 		for _, m := range res.Inconclusive {
 			inconclusive = append(inconclusive, name+": "+m)
@@ -271,6 +274,10 @@ func cmdCheck(args []string) int {
 		var pend []pending
 		seenSig := map[string]int{}
 		for _, f := range res.Failures {
+			if !inScope(j.Only, f.ID) {
+				rep.OutOfScope++
+				continue
+			}
 			var kf *knownFinding
 			for k := range known {
 				if known[k].matches(id, j.Func, f) {
@@ -356,6 +363,18 @@ func cmdCheck(args []string) int {
 		return 2
 	}
 	return 0
+}
+
+func inScope(only []string, id string) bool {
+	if len(only) == 0 {
+		return true
+	}
+	for _, p := range only {
+		if strings.HasPrefix(id, p) {
+			return true
+		}
+	}
+	return false
 }
 
 func sumMap(m map[string]int) int {
@@ -688,7 +707,7 @@ func writeEvidence(id, tier string, seed int, ck Check, reports []jobReport, wal
 			"decisions": res.Decisions, "queries": res.Queries, "unsat": res.QUnsat, "sat": res.QSat, "unknown": res.QUnknown,
 			"solver_s": round2(res.SolverSeconds), "wall_s": round2(res.WallSeconds), "asserts_proved_by_solver": res.AssertsProved,
 			"asserts_true_concretely": res.AssertsConc, "reached": res.Reached, "failures": len(res.Failures), "instructions": res.Instrs,
-			"native_replays": r.Replayed, "native_agreed": r.Agreed, "note": r.Note, "max_goroutines": res.MaxGoroutines,
+			"failures_judged_by_other_properties": r.OutOfScope, "assertion_scope": r.scope, "native_replays": r.Replayed, "native_agreed": r.Agreed, "note": r.Note, "max_goroutines": res.MaxGoroutines,
 		})
 	}
 	if len(samples) == 0 {
